@@ -2,7 +2,8 @@
 SPECIFICATION Spec
 CONSTANTS
   Callers = {c1, c2}
-  MaxOps = 2
+  MaxOps = 1
+  LateOps = 1
   Ops = {"batchS", "batchU", "search", "fielddict", "forcemerge", "copyto", "doccount", "stats", "close"}
   Engine = "disk"
   MaxMerges = 1
